@@ -8,6 +8,7 @@ package main
 
 import (
 	"context"
+	"crypto/sha256"
 	"crypto/x509"
 	"encoding/base64"
 	"encoding/json"
@@ -149,7 +150,33 @@ type session struct {
 	store     *MockStore
 	rv        *tsRev
 	v         notation.Verifier
+	doc       *trustpolicy.OCIDocument
+	opts      *notation.VerifierVerifyOptions // non-nil: every step passes this very object (same maps)
 	lastToken []byte
+}
+
+// frame is a deep snapshot of every caller-owned object that goes by reference into the library: the descriptor
+// (annotations map), the envelope bytes, the verify options (plugin-config and user-metadata maps), the trust policy
+// document (its slices and override map), the trustStores slice the document was built from, and the trust store's
+// certificate slices (order, identity and content of every certificate). The library may only read them.
+func frame(desc ocispec.Descriptor, env []byte, opts *notation.VerifierVerifyOptions, doc *trustpolicy.OCIDocument, stores []string, store *MockStore) map[string]string {
+	j := func(v any) string { return string(must(json.Marshal(v))) }
+	f := map[string]string{
+		"target descriptor":                                j(desc),
+		"signature envelope bytes":                         fmt.Sprintf("%d:%x", len(env), sha256.Sum256(env)),
+		"verify options (PluginConfig, UserMetadata maps)": j(opts),
+		"trust policy document":                            j(doc),
+		"trustStores slice":                                j(stores),
+	}
+	for k, certs := range store.Certs {
+		var b strings.Builder
+		for _, c := range certs {
+			fmt.Fprintf(&b, "%p:%x:%d:%d;", c, sha256.Sum256(c.Raw), c.NotBefore.Unix(), c.NotAfter.Unix())
+		}
+		f[fmt.Sprintf("certificate slice of trust store %s:%s", k.Type, k.Name)] = fmt.Sprintf("%d|%s", len(certs), b.String())
+	}
+	f["trust store failure table"] = fmt.Sprint(len(store.Fail))
+	return f
 }
 
 func anchorIndex(n, anchor int) int {
@@ -173,7 +200,7 @@ func newStore(world *tsaWorld) *MockStore {
 	return store
 }
 
-func newVerifier(c *c06Case, store *MockStore, rv *tsRev) notation.Verifier {
+func newVerifier(c *c06Case, store *MockStore, rv *tsRev) (notation.Verifier, *trustpolicy.OCIDocument) {
 	natural := map[string]string{"strict": "Enforce", "permissive": "Log", "audit": "Log"}[c.Level]
 	override := map[trustpolicy.ValidationType]trustpolicy.ValidationAction{trustpolicy.TypeRevocation: trustpolicy.ActionSkip}
 	act := map[string]trustpolicy.ValidationAction{"Enforce": trustpolicy.ActionEnforce, "Log": trustpolicy.ActionLog}
@@ -188,7 +215,7 @@ func newVerifier(c *c06Case, store *MockStore, rv *tsRev) notation.Verifier {
 	if err != nil {
 		panic(fmt.Sprintf("c06: verifier construction: %v", err))
 	}
-	return v
+	return v, doc
 }
 
 // ---------- envelope surgery ----------
@@ -420,7 +447,8 @@ func runC06(a *Args) error {
 	}
 	t0 := time.Now()
 	world := newTSAWorld(t0)
-	desc := ocispec.Descriptor{MediaType: "application/vnd.oci.image.manifest.v1+json", Digest: digest.Digest(strings.TrimPrefix(TestRef, TestScope+"@")), Size: 528}
+	desc := ocispec.Descriptor{MediaType: "application/vnd.oci.image.manifest.v1+json", Digest: digest.Digest(strings.TrimPrefix(TestRef, TestScope+"@")), Size: 528,
+		Annotations: map[string]string{"io.verif/c06": "frame", "io.verif/other": "x"}}
 	payload := PayloadFor(desc)
 
 	var id int64
@@ -606,23 +634,42 @@ func runC06(a *Args) error {
 			}
 			// --- policy and verifier (a history reuses one instance)
 			var v notation.Verifier
+			var doc *trustpolicy.OCIDocument
+			opts := &notation.VerifierVerifyOptions{PluginConfig: map[string]string{"cfg": "1", "other": "2"}, UserMetadata: map[string]string{"io.verif/c06": "frame"}}
 			if c.sess != nil {
 				if c.sess.v == nil {
-					c.sess.v = newVerifier(c, store, rv)
+					c.sess.v, c.sess.doc = newVerifier(c, store, rv)
 				}
-				v = c.sess.v
+				v, doc = c.sess.v, c.sess.doc
+				if c.sess.opts != nil {
+					opts = c.sess.opts // the SAME options object and maps as in the previous steps
+				}
 			} else {
-				v = newVerifier(c, store, rv)
+				v, doc = newVerifier(c, store, rv)
 			}
+			opts.ArtifactReference, opts.SignatureMediaType = TestRef, c.Format
+			frame0 := frame(desc, env, opts, doc, c.Stores, store)
 			before := time.Now()
 			var outcome *notation.VerificationOutcome
 			var verr2 error
 			panicked := func() (p any) {
 				defer func() { p = recover() }()
-				outcome, verr2 = v.Verify(context.Background(), desc, env, notation.VerifierVerifyOptions{ArtifactReference: TestRef, SignatureMediaType: c.Format})
+				outcome, verr2 = v.Verify(context.Background(), desc, env, *opts)
 				return nil
 			}()
 			after := time.Now()
+			// frame check: the library only reads what the caller handed in
+			frame1 := frame(desc, env, opts, doc, c.Stores, store)
+			for what, before := range frame0 {
+				if frame1[what] != before && emit {
+					w.ImplViolation(my, "library mutated caller-owned "+what, c, "")
+				}
+			}
+			for what := range frame1 {
+				if _, ok := frame0[what]; !ok && emit {
+					w.ImplViolation(my, "library mutated caller-owned trust store (new entry "+what+")", c, "")
+				}
+			}
 			if panicked != nil {
 				c.ObsTs = fmt.Sprintf("PANIC: %v", panicked)
 				if emit {
